@@ -186,6 +186,8 @@ def check_semantics(sc, obs, default_ttl=None):
                 raise vlib.CheckError("harness error: " + ob["r"])
             if op["op"] in ("sleep", "dump", "stats", "keyinfo", "evict", "janitor", "compact", "lock", "unlock", "lease"):
                 continue
+            if op.get("cx") and ob.get("r") != "ok":
+                continue        # a call made with an expired context may be refused: then it changes nothing (mirror: next dump)
             exp = ref.step(op, ob)
             msg = compare_obs(op, ob, exp)
             if msg:
@@ -297,6 +299,8 @@ def case_to_coq(cfg, ops, obs, default_ttl=None, max_idle=None):
             allkeys.append((op["d"], op["k"]))
             continue
         if o in ("sleep", "stats", "scan", "janitor", "compact") or ob.get("r") == "harness:no such lock handle":
+            continue
+        if op.get("cx") and ob.get("r") != "ok":
             continue
         t0, t1 = ob["t0"], ob["t1"]
         tol = maxtol
@@ -478,6 +482,10 @@ def gen_seq(rng, dname, nops, nkeys=3, paths=None, dump=True, short_ttl=True, lo
                 ops.append({"op": "lease", "tok": h, "ms": 60000})
         else:
             continue
+        if ops[-1]["op"] in ("put", "expire", "getput", "incr", "decr") and ops[-1]["c"].startswith("emb") and rng.random() < 0.1:
+            # the caller's context is past its deadline when the call is made: the operation may be refused (and then changes
+            # nothing); when it is acknowledged it has to be complete on every copy
+            ops[-1]["cx"] = "expired"
         if dump and ops[-1]["op"] not in ("sleep", "evict"):
             ops.append({"op": "dump", "d": dname, "k": k})
     if dump:
@@ -511,6 +519,8 @@ def check_semantics_locks(sc, obs, default_ttl=None):
             t0, t1 = ob["t0"], ob["t1"]
             if o == "evict":
                 continue
+            if op.get("cx") and ob.get("r") != "ok":
+                continue        # refused because of the caller's expired context: changes nothing
             if o == "lock":
                 d, k = op["d"], op["k"]
                 vis = ref.visible(d, k, t0, t1)
